@@ -256,7 +256,7 @@ def run(R):
     race = True
     os.environ.setdefault("VERIF_MECH_TMP", R.tmp)
     env = dict(os.environ, GORACE="halt_on_error=1 exitcode=66", VERIF_MECH_TMP=R.tmp)
-    exe, log = vlib.build_harness(R.tmp, race=race)
+    exe, log = vlib.build_harness(R.tmp, race=race, pid=PID)
     if exe is None:
         R.violation("harness does not build against the repository", {"build_log": log[-3000:]}, no_input=True)
         return
@@ -442,7 +442,7 @@ def replay(R, path):
     with vlib.LeanLock():
         vlib.lake(["build", "driver"])
     env = dict(os.environ, GORACE="halt_on_error=1 exitcode=66", VERIF_MECH_TMP=R.tmp)
-    exe, log = vlib.build_harness(R.tmp, race=True)
+    exe, log = vlib.build_harness(R.tmp, race=True, pid=PID)
     if exe is None:
         R.violation("harness does not build", {"build_log": log[-3000:]}, no_input=True)
         return
